@@ -57,7 +57,7 @@ class Chunks(Harness):
                     for nofinal in (False, True):
                         hdr = ["@HD\tVN:1.0"] if fmt == "sam" else (["#comment"] if fmt == "gtf" else [])
                         out.append(dict(fmt=fmt, rows=rows, mode=mode, no_final_newline=nofinal, crlf=False, header=hdr))
-                    if fmt == "bed3" or tier == "thorough":
+                    if fmt in ("bed3", "sam") or tier == "thorough":
                         out.append(dict(fmt=fmt, rows=rows, mode=mode, no_final_newline=False, crlf=True, header=[]))
         for fmt, recsets in S.items():
             for recs in recsets:
